@@ -398,7 +398,7 @@ func setExpires(ctx *Context, fact map[string]interface{}) (bool, int64, error) 
 		case float64: // Only kind of number in Javascript!
 			expires = NowSecs() + int64(vv)
 		case int64:
-			expires = vv
+			expires = NowSecs() + vv
 		case string:
 			d, err := time.ParseDuration(vv)
 			if err != nil {
